@@ -39,6 +39,8 @@ DFok(r) ==
   /\ ~r.err
   \* documented behaviour: "Convolution is periodic", kernel and data wrapped to the padded range
   /\ FitsPadding(k, a) => close(PerConv(k, a, r.olo, r.on).v)
+  \* beyond the property: data longer than the padded length are copied "using wrap-around" first
+  /\ ~FitsPadding(k, a) => close(PerConv(k, Wrapped(a, k.n), r.olo, r.on).v)
   \* the property: "equals direct convolution with the same kernel whenever the padded length is at least
   \* twice the data length so that no wrap-around can occur"
   /\ (FitsPadding(k, a) /\ NoWrap(k, a, r.olo, r.on)) => close(Conv(Centred(k), a, r.olo, r.on).v)
@@ -49,7 +51,7 @@ DFok(r) ==
 \* single precision; three passes of at most ~60 multiply-adds each: worst case 3 * 60 * 2^-24 < 2^-16);
 \* Metz: the kernel is "cut off" where it falls below 1E-4 of its centre value (documented in the source), so
 \* its sum is one only to about 1E-3: 2^-10.
-RelLog(filter) == IF filter = "metz_array" THEN 10 ELSE 16
+RelLog(filter) == IF filter \in {"metz_array", "metz_image"} THEN 10 ELSE 16
 IRNonZero(r) == { q \in 1..Size(r.irn) : r.ir[q] # 0 }
 MaxOf(S) == CHOOSE x \in S : \A y \in S : x >= y
 HalfWidths(r, nz) == [d \in Axes |-> MaxOf({0} \cup { Abs(Pos(Z3, r.irn, q - 1)[d] - r.ipos[d]) : q \in nz })]
@@ -71,12 +73,124 @@ MEANok(r) ==
   /\ \E nz \in {IRNonZero(r)} : \E h \in {HalfWidths(r, nz)} : \E target \in {r.c * P2(r.fk - r.sd)} :
      LET unit == P2(r.irk) IN
          /\ ~Clipped(r, nz)
-         \* "filters whose kernel sums to one (Gaussian, Metz at zero power)"
+         \* the impulse response of a Gaussian / Metz filter is symmetric about the impulse (exactly: both
+         \* sides are the same stored coefficient)
+         /\ \A q \in nz : LET p == Pos(Z3, r.irn, q - 1)
+                                m == [d \in Axes |-> 2 * r.ipos[d] - p[d]] IN
+                            r.ir[Off(Arr(Z3, r.irn, r.ir), m)] = r.ir[q]
+         \* "filters whose kernel sums to one (Gaussian, Metz at zero power)" (beyond the property text: every Metz power,
+         \* "M(0) = 1" in the class documentation)
          /\ Abs(Sum([q \in 1..Size(r.irn) |-> r.ir[q]]) - unit) <= unit \div P2(RelLog(r.filter)) + Cardinality(nz)
          \* "preserve the mean of data that is constant over the kernel support"
          /\ \E q \in 1..Size(r.dn) : Qualifies(r, h, Pos(r.dlo, r.dn, q - 1))
          /\ \A q \in 1..Size(r.dn) : Qualifies(r, h, Pos(r.dlo, r.dn, q - 1)) =>
                  Abs(r.o[q] - target) <= 1 + target \div P2(RelLog(r.filter))
+
+(* ======================= beyond the property text ======================== *)
+(* ---- MedianArrayFilter3D / MedianImageFilter3D / MinimalArrayFilter3D --- *)
+MedExpected(r, a) == IF r.kind = "median" THEN Median2Filter(a, r.r).v ELSE MinimalFilter(a, r.r).v
+MedOutputOk(r) == \E a \in {Arr(r.dlo, r.dn, r.d)} : ~r.err /\ r.res = 0 /\ SameVals(r.o, MedExpected(r, a))
+\* "Should return true when the operations won't modify the object at all"
+MedTrivialOk(r) == r.trivial => MaskIsIdentity(r.r)
+MEDok(r) == MedOutputOk(r) /\ MedTrivialOk(r)
+(* ---- ThresholdMinToSmallPositiveValueDataProcessor ----------------------- *)
+\* results are logged exactly as mantissa * 2^exponent (mantissa odd or 0)
+RECURSIVE OddPart(_), TwoExp(_)
+OddPart(v) == IF v = 0 THEN 0 ELSE IF v % 2 = 0 THEN OddPart(v \div 2) ELSE v
+TwoExp(v) == IF v = 0 THEN 0 ELSE IF v % 2 = 0 THEN 1 + TwoExp(v \div 2) ELSE 0
+\* mantissa * 2^e = v * 2^-sd
+SameNumber(m, e, v, sd) == m = OddPart(v) /\ (v = 0 \/ e = TwoExp(v) - sd)
+\* tau = m * 2^e is v * 2^-sd * 10^-6 within 2^-9 (10^6 = 2^6 * 15625; 14 leading bits of the mantissa are used)
+RECURSIVE Bits(_)
+Bits(v) == IF v = 0 THEN 0 ELSE 1 + Bits(v \div 2)
+NearMillionth(m, e, v, sd) ==
+  \E sh \in {IF Bits(m) > 14 THEN Bits(m) - 14 ELSE 0} :
+  \E lhs \in {(m \div P2(sh)) * 15625} :           \* tau * 10^6 = lhs * 2^(e + sh + 6)
+  \E d \in {(-sd) - (e + sh + 6)} :               \* v * 2^-sd = (v * 2^d) * 2^(e + sh + 6)
+    /\ m > 0 /\ d >= 0 /\ Bits(v) + d <= 30
+    /\ Abs(lhs - v * P2(d)) * 512 <= lhs
+THRok(r) ==
+  \E n \in {Len(r.d)} :
+  /\ ~r.err /\ Len(r.om) = n /\ Len(r.oe) = n /\ n = Size(r.dn) /\ n > 0
+  /\ \E pos \in {{ i \in 1..n : r.d[i] > 0 }} : \E neg \in {{ i \in 1..n : r.d[i] <= 0 }} :
+     IF pos # {}
+     THEN \E m \in {CHOOSE v \in { r.d[i] : i \in pos } : \A i \in pos : v <= r.d[i]} :
+          \* "Thresholds the sequence from below to *min_positive_element()*small_number"
+          /\ \A i \in pos : SameNumber(r.om[i], r.oe[i], r.d[i], r.sd)
+          /\ \A i \in neg : r.om[i] = r.om[CHOOSE j \in neg : TRUE] /\ r.oe[i] = r.oe[CHOOSE j \in neg : TRUE]
+          /\ neg # {} => NearMillionth(r.om[CHOOSE j \in neg : TRUE], r.oe[CHOOSE j \in neg : TRUE], m, r.sd)
+     \* "if all values are less than or equal to 0, they are set to small_number" (0.000001F)
+     ELSE /\ \A i \in 1..n : r.om[i] = r.om[1] /\ r.oe[i] = r.oe[1]
+          /\ NearMillionth(r.om[1], r.oe[1], 1, 0)
+(* ---- TruncateToCylindricalFOVImageProcessor ------------------------------ *)
+TRUNCok(r) == /\ ~r.err /\ r.res = 0
+              /\ SameVals(r.o, TruncateFOV(Arr(r.dlo, r.dn, r.d), r.rim, r.strict).v)
+(* ---- ChainedDataProcessor: "calls 2 DataProcessors in sequence" ----------- *)
+CHAINok(r) == /\ ~r.err /\ r.res = 0
+              /\ SameVals(r.o, ApplyChain(r.stages, Arr(r.dlo, r.dn, r.d)).v)
+(* ---- in_place_apply_array_function_on_1st_index / apply_array_function_on_1st_index ---- *)
+\* "Apply a function object on all possible 1d arrays extracted by keeping all indices fixed, except the first one"
+ON1ok(r) ==
+  \E ax \in {4 - r.dim} : \E a \in {Arr(r.dlo, r.dn, r.d)} :
+  /\ ~r.err /\ r.res = 0
+  /\ \A d \in Axes : d # ax => (r.olo[d] = r.dlo[d] /\ r.on[d] = r.dn[d])
+  /\ SameVals(r.o, ConvBC(Along(ax, r.klo, r.k), a, r.olo, r.on, r.bc).v)
+(* ---- in_place_abs / in_place_log / in_place_exp --------------------------- *)
+\* abs: exact.  log, exp: TLC evaluates no transcendental function; the elementwise results must satisfy the
+\* functional equations on the dyadic data chosen: log(1) = 0, log(2^j m) = log(m) + j log(2) (log(2) and log(m)
+\* being other recorded results), exp(0) = 1, exp(a + 1) = exp(a) exp(1), exp(a) exp(-a) = 1, both monotone
+IndexOf(s, v) == CHOOSE i \in 1..Len(s) : s[i] = v
+Occurs(s, v) == \E i \in 1..Len(s) : s[i] = v
+ELTok(r) ==
+  \E n \in {Len(r.x)} :
+  /\ ~r.err /\ n = Size(r.n) /\ Len(r.o) = n
+  /\ CASE r.fn = "abs" -> r.res = 0 /\ \A i \in 1..n : r.o[i] = Abs(r.x[i])
+       [] r.fn = "log" ->
+            \E one \in {P2(r.sx)} :
+            /\ \A i \in 1..n : r.x[i] > 0
+            /\ Occurs(r.x, one) /\ Occurs(r.x, 2 * one)
+            /\ \E l2 \in {r.o[IndexOf(r.x, 2 * one)]} :
+               /\ r.o[IndexOf(r.x, one)] = 0
+               /\ \A i \in 1..n : \E m \in {OddPart(r.x[i])} : \E j \in {TwoExp(r.x[i]) - r.sx} :
+                    \* the odd part itself (times the unit) is among the data
+                    /\ Occurs(r.x, m * one)
+                    /\ Abs(r.o[i] - (r.o[IndexOf(r.x, m * one)] + j * l2)) <= 2 + Abs(j) + Abs(r.o[i]) \div P2(20)
+               /\ \A i, j \in 1..n : r.x[i] < r.x[j] => r.o[i] <= r.o[j]
+       [] r.fn = "exp" ->
+            \* data are integers (sx = 0) in -4..4; rounding of the logged values: half a unit each
+            /\ r.sx = 0 /\ r.fk <= 10 /\ \A i \in 1..n : Abs(r.x[i]) <= 4 /\ r.o[i] > 0
+            /\ Occurs(r.x, 0) /\ Occurs(r.x, 1)
+            /\ r.o[IndexOf(r.x, 0)] = P2(r.fk)
+            /\ \E e1 \in {r.o[IndexOf(r.x, 1)]} : \E one \in {P2(r.fk)} :
+               \A i \in 1..n :
+                 /\ Occurs(r.x, r.x[i] + 1) =>
+                      \E nxt \in {r.o[IndexOf(r.x, r.x[i] + 1)]} :
+                         Abs(r.o[i] * e1 - nxt * one) <= e1 + r.o[i] + one + (nxt * one) \div P2(12)
+                 /\ Occurs(r.x, -r.x[i]) =>
+                      \E inv \in {r.o[IndexOf(r.x, -r.x[i])]} :
+                         Abs(r.o[i] * inv - one * one) <= r.o[i] + inv + (one * one) \div P2(12)
+            /\ \A i, j \in 1..n : r.x[i] < r.x[j] => r.o[i] < r.o[j]
+       [] OTHER -> FALSE
+(* ---- RampFilter (FBP2D): real, even, no DC (discrete relations only) ------- *)
+\* the kernel is "the ramp*Hanning in ordinary space in continuous form, sampled": h is the recorded response to a unit
+\* impulse over one period, h[n] for n = -L/2 .. L/2-1 (sequence index n + L/2 + 1), logged as round(v 2^hk).
+\* Even: h[-n] = h[n].  The continuous ramp has no DC and sampling at cut-off <= 1/2 adds none, so the sum of all
+\* samples is 0 and the sum over one period is the neglected tail: |sum| <= 4/L.  For the plain ramp (alpha = 1,
+\* cut-off 1/2) the samples are h[0] = pi/2, h[n] = 0 (n even), h[n] = -2/(pi n^2) (n odd):
+\* without pi: n^2 h[n] = h[1] and h[0] h[1] = -1.
+RAMPok(r) ==
+  \E L \in {r.L} : \E h \in {[n \in (-(r.L \div 2))..(r.L \div 2 - 1) |-> r.h[n + r.L \div 2 + 1]]} : \E one \in {P2(r.hk)} :
+  /\ ~r.err /\ Len(r.h) = L /\ L >= 4
+  /\ \A n \in 1..(L \div 2 - 1) : Abs(h[n] - h[-n]) <= 2 + one \div P2(16)
+  /\ Abs(Sum([i \in 1..L |-> r.h[i]])) * L <= 4 * one + L * L
+  /\ (r.alpha = 1024 /\ r.fc = 512) =>
+       /\ \A n \in 1..(L \div 2 - 1) : n % 2 = 0 => Abs(h[n]) <= 2 + one \div P2(16)
+       /\ \A n \in 1..Min2(L \div 2 - 1, 15) : n % 2 = 1 => Abs(n * n * h[n] - h[1]) <= n * n * 2 + one \div P2(14)
+       /\ Abs((h[0] \div 256) * (h[1] \div 256) + P2(2 * r.hk - 16)) * 1024 <= P2(2 * r.hk - 16)
+(* ---- parameter_info() -> parse(): "same filter" ---------------------------- *)
+\* the filter rebuilt from the text the first one prints gives the same output (both recorded)
+RTok(r) == /\ ~r.err /\ r.parsed
+           /\ Len(r.o1) = Size(r.dn) /\ SameVals(r.o1, r.o2)
 
 Explains(r) ==
   CASE r.e = "C1" -> C1ok(r)
@@ -85,6 +199,14 @@ Explains(r) ==
     [] r.e = "SEP" -> SEPok(r)
     [] r.e = "DF" -> DFok(r)
     [] r.e = "MEAN" -> MEANok(r)
+    [] r.e = "MED" -> MEDok(r)
+    [] r.e = "THR" -> THRok(r)
+    [] r.e = "TRUNC" -> TRUNCok(r)
+    [] r.e = "CHAIN" -> CHAINok(r)
+    [] r.e = "ON1" -> ON1ok(r)
+    [] r.e = "ELT" -> ELTok(r)
+    [] r.e = "RAMP" -> RAMPok(r)
+    [] r.e = "RT" -> RTok(r)
     [] OTHER -> FALSE
 
 (* Known findings (known_findings.jsonl): an unexplained line is attributed to one only by the       *)
@@ -121,8 +243,31 @@ SepParseEmpty(r) ==
   /\ r.e = "SEP" /\ r.via = 5 /\ ~r.err /\ ~r.crash /\ r.res = 0
   /\ \E ax \in Axes : Len(r.kv[ax]) = 0
   /\ Len(r.o) = Size(r.dn) /\ \A q \in 1..Len(r.o) : r.o[q] = 0
+\* C19-median-border: MedianArrayFilter3D::do_it partitions the whole scratch array (nth_element(..., neighbours.end()))
+\* instead of the neighbours found, and for an even count takes an arbitrary smaller element as the lower middle one:
+\* voxels whose mask sticks out of the image get a median polluted by stale values; voxels with the whole mask inside
+\* the image are right
+FullMask(r, p) == \A d \in Axes : p[d] - r.r[d] >= r.dlo[d] /\ p[d] + r.r[d] <= r.dlo[d] + r.dn[d] - 1
+MedianBorder(r) ==
+  /\ r.e = "MED" /\ r.kind = "median" /\ ~r.err /\ r.res = 0 /\ Len(r.o) = Size(r.dn)
+  /\ \E a \in {Arr(r.dlo, r.dn, r.d)} : \E ex \in {Median2Filter(a, r.r).v} :
+       \A q \in 1..Size(r.dn) : FullMask(r, Pos(r.dlo, r.dn, q - 1)) => r.o[q] = ex[q]
+\* C19-mask-trivial: MedianArrayFilter3D / MinimalArrayFilter3D::is_trivial() return "no radius equals 1" instead of
+\* "all radii are 0"
+MaskTrivialDefect(r) == r.e = "MED" /\ r.trivial = (r.r[1] # 1 /\ r.r[2] # 1 /\ r.r[3] # 1)
 Classify(r) ==
   IF ~Has(r, "e") THEN "new"
+  ELSE IF r.e = "MED" /\ MedOutputOk(r) /\ MaskTrivialDefect(r) THEN "C19-mask-trivial"
+  ELSE IF r.e = "MED" /\ MedianBorder(r) /\ (MedTrivialOk(r) \/ MaskTrivialDefect(r)) THEN "C19-median-border"
+  \* C19-chain-empty: a ChainedDataProcessor whose two processors are both null does nothing in the 2-argument apply():
+  \* the output keeps its previous content (the driver's fill value 777) instead of becoming the input
+  ELSE IF r.e = "CHAIN" /\ ~r.err /\ r.via = 1 /\ Len(r.o) = Size(r.dn)
+          /\ (\/ r.shape = 0 /\ r.stages[1].t = "none" /\ r.stages[2].t = "none"
+              \/ r.shape = 1 /\ r.stages[2].t = "none" /\ r.stages[3].t = "none"
+              \/ r.shape = 2 /\ r.stages[1].t = "none" /\ r.stages[2].t = "none")
+          /\ (\A q \in 1..Len(r.o) : r.o[q] = r.o[1]) /\ r.o[1] # 0 /\ r.o[1] % 777 = 0 THEN "C19-chain-empty"
+  \* a chain that contains a median stage with a non-zero radius inherits C19-median-border
+  ELSE IF r.e = "CHAIN" /\ ~r.err /\ r.res = 0 /\ (\E i \in 1..Len(r.stages) : r.stages[i].t = "median" /\ r.stages[i].r # <<0, 0, 0>>) THEN "C19-median-border"
   ELSE IF r.e = "SEP" /\ SepParseEmpty(r) THEN "C19-sepparse-empty"
   ELSE IF r.e = "CN" /\ TrivialND(r) THEN "C19-trivialnd"
   ELSE IF r.e = "MEAN" /\ MetzTrunc(r) THEN "C19-metztrunc"
